@@ -104,10 +104,12 @@ def _bucket(d: str, kind: str, t1, opts=None) -> tuple:
     for n in t1.walk():
         if n is t1:
             continue
-        if isinstance(n, (exp.Condition, exp.Query)) and not isinstance(n, (exp.Identifier, exp.Literal, exp.Star, exp.Null, exp.Boolean)):
+        if isinstance(n.parent, (exp.From, exp.Join, exp.With, exp.CTE, exp.Lateral)) or isinstance(n, (exp.Alias, exp.Subquery, exp.Table)):
+            continue  # table-position nodes do not parse standalone the way they do in context
+        if isinstance(n, (exp.Condition, exp.Query)) and not isinstance(n, (exp.Identifier, exp.Literal, exp.Star, exp.Null, exp.Boolean, exp.Column)):
             cands.append(n)
     sized = sorted(((F.count_nodes(n), i, n) for i, n in enumerate(cands)), key=lambda x: x[:2])
-    for _, _, n in sized[:150]:
+    for _, _, n in sized[:60]:
         st_, inf = tree_roundtrip(n, d, opts)
         if st_ == kind:
             return f"{d or 'base'}|{kind}|{type(n).__name__}", inf.get("s1")
